@@ -21,12 +21,20 @@ from eqlvc.libmodel import LibModel, base_modenv, init_fields, static_parent
 SelIds = z3.Function('SelIds', Z.Node, Z.ArrIB)       # ids of node.selected_variables
 UV = z3.Function('UV', Z.Node, Z.ArrIB)               # ids of node._unique_variables_
 ConcIds = z3.Function('ConcIds', Z.Node, Z.ArrIB)     # ids of the variables of the conclusions attached to a node
+DescConcIds = z3.Function('DescConcIds', Z.Node, Z.ArrIB)   # ... of the conclusions attached to the node's descendants
 FALSE_IDS = z3.K(Z.I, z3.BoolVal(False))
 TRUE_IDS = z3.K(Z.I, z3.BoolVal(True))
 
 
 def subset(a, b):
     return z3.Map(Z.IMP_D, a, b) == TRUE_IDS
+
+
+def _valid(f):
+    s = z3.Solver()
+    s.set('timeout', 2000)
+    s.add(z3.Not(f))
+    return s.check() == z3.unsat
 
 
 class ReqModel(LibModel):
@@ -122,6 +130,8 @@ class ReqModel(LibModel):
                 return [(st, Obj('children', {'of': recv.t}))]
             if name == '_conclusion_':
                 return [(st, Obj('conclusions', {'of': [recv.t]}))]
+            if name == '_conclusions_of_all_descendants_':
+                return [(st, Obj('conclusions', {'of': [('desc', recv.t)]}))]
         if isinstance(recv, Obj) and recv.kind == 'conclusions' and name == 'union':
             return [(st, Meth(recv, 'union'))]
         return super().getattr(eng, st, recv, name)
@@ -129,6 +139,20 @@ class ReqModel(LibModel):
     def obj_conclusions_union(self, eng, st, recv, args, kwargs, node):
         (o,) = args
         return [(st, Obj('conclusions', {'of': recv.data['of'] + o.data['of']}))]
+
+    def f_list(self, eng, st, args, kwargs, node):
+        if args and isinstance(args[0], Obj) and args[0].kind == 'conclusions':
+            return [(st, args[0])]
+        return super().f_list(eng, st, args, kwargs, node)
+
+    def binop(self, eng, st, op, a, b):
+        if isinstance(op, ast.Add) and all(isinstance(x, Obj) and x.kind == 'conclusions' for x in (a, b)):
+            return Obj('conclusions', {'of': a.data['of'] + b.data['of']})
+        return None
+
+    @staticmethod
+    def conc_ids(src):
+        return DescConcIds(src[1]) if isinstance(src, tuple) else ConcIds(src)
 
     def node__required_variables_from_child_(self, eng, st, recv, args, kwargs, node):
         # the parent's answer (its own contract, by induction on the depth): some set of ids, here a fresh symbolic one
@@ -166,6 +190,10 @@ class ReqModel(LibModel):
                                                     if not eng.feasible(o.st, z3.Not(z3.Select(o.st.ghost['idsets'][r], Z.nid(v))))]
                             got = o.st.ghost['_added']
                             st.ghost.setdefault('_sel_added', []).append((it.data['of'], got))
+                        if it.kind == 'conclusions':
+                            # which sets received all the variables of this (arbitrary) conclusion?
+                            got = [r for r in pre_sets if _valid(subset(UV(v), o.st.ghost['idsets'][r]))]
+                            st.ghost.setdefault('_sel_added', []).append((None, got))
                     elif o.sig == BREAK:
                         outs.append(Outcome(o.st))
                     else:
@@ -180,6 +208,10 @@ class ReqModel(LibModel):
                 e.assume(subset(c0, f))
                 if it.kind == 'selvars' and added and r in added:
                     e.assume(subset(SelIds(it.data['of']), f))      # every iteration added its element to this set
+                if it.kind == 'conclusions' and added and r in added:
+                    # every iteration added the variables of its conclusion: the set contains the variables of all of them
+                    for src in it.data['of']:
+                        e.assume(subset(self.conc_ids(src), f))
                 sets[r] = f
             e.ghost['idsets'] = sets
             e.ghost.pop('_sel_added', None)
@@ -206,6 +238,32 @@ class ReqModel(LibModel):
 
     def signature(self, ob, model):
         return {}
+
+
+class SiblingMixin:
+    """C02: a row of the left operand that differs from every earlier row in a variable the right operand reads must not be
+    suppressed as a duplicate when the right operand is evaluated next (AND: after a true left row; OR / ElseIf: after a false
+    one; ExceptIf: after a true one): for those truth values the left operand's de-duplication key contains the right
+    operand's variables."""
+    right_evaluated_after_left = ()        # values of when_true for which the clause is required
+    right_concludes = False                # the right operand is a rule branch whose conclusions are selected (else-if)
+
+    def on_exit(self, eng, o):
+        super().on_exit(eng, o)
+        st = o.st
+        if o.sig != RETURN or not (isinstance(o.val, Obj) and o.val.kind == 'idset'):
+            return
+        ch = st.locals.get('child')
+        wt = st.locals.get('when_true')
+        is_left = (isinstance(ch, C) and ch.v is None) or (isinstance(ch, ZV) and ch.t.eq(Z.f_left(self.n)))
+        if is_left and isinstance(wt, C) and wt.v in self.right_evaluated_after_left:
+            res = st.ghost['idsets'][o.val.data['ref']]
+            eng.oblige(st, "req/left-operand-key-contains-the-variables-the-right-operand-reads",
+                       subset(UV(Z.f_right(self.n)), res))
+            if self.right_concludes:
+                r = Z.f_right(self.n)
+                eng.oblige(st, "req/left-operand-key-contains-the-variables-the-right-branch-concludes-with",
+                           z3.And(subset(ConcIds(r), res), subset(DescConcIds(r), res)))
 
 
 class ReqBase(ReqModel):
@@ -279,22 +337,28 @@ class ReqDescriptor(ReqModel):
         eng.oblige(st, "req/contains-every-selected-expression", subset(SelIds(self.n), res))
 
 
-class ReqBinary(ReqModel):
+class ReqBinary(SiblingMixin, ReqModel):
     qual = 'symbolic:BinaryOperator._required_variables_from_child_'
     cls = 'BinaryOperator'
+    props = ('C02', 'C16', 'C18')
+    right_evaluated_after_left = (True, None)
 
 
-class ReqOr(ReqModel):
+class ReqOr(SiblingMixin, ReqModel):
     qual = 'symbolic:OR._required_variables_from_child_'
     cls = 'OR'
+    props = ('C02', 'C16', 'C18', 'C12')
+    right_evaluated_after_left = (False, None)
+    right_concludes = True
     child_cases = ('none', 'left', 'right')      # precondition: the child is one of the operator's own operands
 
 
-class ReqExceptIf(ReqModel):
+class ReqExceptIf(SiblingMixin, ReqModel):
     qual = 'conclusion_selector:ExceptIf._required_variables_from_child_'
     cls = 'ExceptIf'
     needs_parent = True
     props = ('C02', 'C12')
+    right_evaluated_after_left = (True,)
 
 
 CONTRACTS = [ReqBase, ReqQuantifier, ReqDescriptor, ReqBinary, ReqOr, ReqExceptIf]
